@@ -255,7 +255,8 @@ def check(prop, tier, seed):
             hit = None
             for k in known:
                 reasons = k.get("reasons") or [k["reason"]]
-                if fnmatch.fnmatchcase(site, k["site"]) and reason in reasons:
+                sites = k.get("sites") or [k["site"]]
+                if any(fnmatch.fnmatchcase(site, s_) for s_ in sites) and reason in reasons:
                     hit = k
                     break
             if hit is not None:
@@ -269,7 +270,7 @@ def check(prop, tier, seed):
             if k["id"] in known_hit and wid and not w_fail:
                 # the witness no longer fails but other inputs at the site do: new violation
                 unlisted += known_hit.pop(k["id"])
-            elif w_fail and k.get("witness_got") and field(w_fail[0], "got") != k["witness_got"]:
+            elif w_fail and k.get("witness_got") and not any(field(d_, "got") == k["witness_got"] for d_ in w_fail):
                 unlisted += known_hit.pop(k["id"])
         rc = 0
         violations = 0
